@@ -27,6 +27,11 @@ inductive Fr where
 
 abbrev Ctx := List Fr
 
+/-- the row of a frame -/
+def Fr.idx : Fr → Nat
+  | .L i _ => i
+  | .R _ i => i
+
 def plug : Sh → Ctx → Sh
   | t, [] => t
   | t, .L i r :: c => plug (.node t i r) c
